@@ -140,8 +140,12 @@ func refEval(n *xnode) rres {
 				}
 				return rv(math.Floor(x / y))
 			case "%":
-				if y == 0 || x != math.Trunc(x) || y != math.Trunc(y) || x < 0 || y < 0 || math.Abs(x) > 1<<53 || math.Abs(y) > 1<<53 {
-					return runspec("modulo outside non-negative integers")
+				// "integer modulo" (ecal.md): the remainder of the operands taken as
+				// integers, i.e. truncated (the repository's own `5.2 % 2` is 1);
+				// left open: negative operands (sign convention) and a divisor
+				// that truncates to zero
+				if x < 0 || y < 1 || math.Abs(x) > 1<<53 || math.Abs(y) > 1<<53 {
+					return runspec("modulo with a negative operand or a divisor below 1")
 				}
 				return rv(float64(int64(x) % int64(y)))
 			}
